@@ -99,7 +99,7 @@ CHECKS = {
          "DESIGN.md §4 C11"),
  "C12": ("exploration",
          "crash/hang monitor over a child process plus strict reader of the produced IMAP lists and comparison with the generator's MIME tree",
-         "Inputs: generated MIME trees, mutations of them, token soup, header-field edge cases, random bytes, nesting to 1500 (thorough 20000) levels, very wide multiparts, 1 MiB header lines, 50000 header fields, address-list soup. A child process runs imap.NewParsedMessage, rfc822.Parse/Walk/Part and rfc5322.ParseAddressList per input and logs BEGIN/RESULT; the parent decides: no death, no hang; ENVELOPE/BODY/BODYSTRUCTURE read as strict parenthesised lists (balanced, legal quoted strings and literals, single spaces) with ENVELOPE and body arities; every walked part inside the message and inside its parent's body; for generated messages types, parameters, sizes, line counts and nesting equal the tree.",
+         "Inputs: generated MIME trees, mutations of them, token soup, header-field edge cases, random bytes, nesting to 1500 (thorough 20000) levels, very wide multiparts, 1 MiB header lines, 50000 header fields, address-list soup. A child process runs imap.NewParsedMessage, rfc822.Parse/Walk/Part and rfc5322.ParseAddressList per input and logs BEGIN/RESULT; the parent decides: no death, no hang; ENVELOPE/BODY/BODYSTRUCTURE read as strict parenthesised lists (balanced, legal quoted strings and literals, single spaces) with ENVELOPE and body arities; every walked part inside the message and inside its parent's body; for generated messages types, parameters, sizes, line counts and nesting equal the tree; cost monitor: the CPU time per input (reported by the child) must not more than triple when the nesting depth doubles (doubling series to 2000/4000 levels).",
          "An empty list where the grammar wants NIL and NIL media types for garbage Content-Type values are tolerated (still well-formed lists). Non-termination is only reported after the single input failed to finish within 60 s alone in a fresh process.",
          "DESIGN.md §4 C12"),
  "C13": ("exploration",
